@@ -134,10 +134,21 @@ impl From<&CmdlineArgs> for debug::Settings {
     }
 }
 
+#[cfg(not(cwe_checker_verif))]
 fn main() -> Result<(), Error> {
     let cmdline_args = CmdlineArgs::parse();
 
     run_with_ghidra(&cmdline_args)
+}
+
+/// Verification-only entry point (`--cfg cwe_checker_verif`):
+/// run the unchanged program body inside one execution of the deterministic simulator.
+#[cfg(cwe_checker_verif)]
+fn main() -> Result<(), Error> {
+    verif_entry::run_simulated(|| {
+        let cmdline_args = CmdlineArgs::parse();
+        run_with_ghidra(&cmdline_args)
+    })
 }
 
 /// Return `Ok(file_path)` only if `file_path` points to an existing file.
@@ -264,6 +275,8 @@ fn run_with_ghidra(args: &CmdlineArgs) -> Result<(), Error> {
     // Execute the modules and collect their logs and CWE-warnings.
     let mut all_cwes = Vec::new();
     for module in modules {
+        #[cfg(cwe_checker_verif)]
+        verif_entry::module_started(module.name);
         let (mut logs, mut cwes) = (module.run)(&analysis_results, &config[&module.name]);
         all_logs.append(&mut logs);
         all_cwes.append(&mut cwes);
